@@ -276,6 +276,12 @@ func (vc *VC) flattenVal(v Val) []Term {
 			r = append(r, vc.flattenVal(f)...)
 		}
 		return r
+	case IfaceVal:
+		if x.Dyn != nil {
+			return vc.flattenVal(x.V)
+		}
+	case SymIface:
+		return []Term{x.T}
 	}
 	panic(execError{fmt.Sprintf("flatten %T", v)})
 }
